@@ -520,10 +520,10 @@ void run_op(Box& box, int thread, const Op& op, int opseq_in_thread) {
 template <class Box>
 void run_program(Box& box, Chooser& c, int nkeys, size_t first_capacity) {
   World& w = *W;
-  int nthreads = c.range(2, 4);
+  int nthreads = c.range(2, vf::thorough() ? 6 : 4);
   std::vector<std::vector<Op>> plan((size_t)nthreads);
   for (int t = 0; t < nthreads; t++) {
-    int nops = c.range(1, 4);
+    int nops = c.range(1, vf::thorough() ? 6 : 4);
     dsched::describe(" T%d[", t + 1);
     for (int i = 0; i < nops; i++) {
       Op op;
